@@ -66,6 +66,13 @@ type Params struct {
 	// pre-loaded state (as a save_state dump would contain)
 	PreDelegations []PreDeleg `json:"pre_delegations,omitempty"`
 	PreEthBalances []PreBal   `json:"pre_eth_balances,omitempty"`
+	PreMature      []PreMat   `json:"pre_mature,omitempty"` // pending unstake maturities carried over by a state dump
+}
+
+type PreMat struct {
+	Val    int   `json:"val"` // validator index whose stake account owns the maturing amount
+	Amount int64 `json:"amount"`
+	Height int64 `json:"height"`
 }
 
 type PreDeleg struct {
@@ -280,7 +287,16 @@ func BuildGenesis(p Params) *Genesis {
 		shares = append(shares, *mustAmt(s))
 	}
 
+	delegState := delegation.DelegationState{}
+	for _, pm := range p.PreMature {
+		v := u.Vals[pm.Val%len(u.Vals)]
+		delegState.MatureAmounts = append(delegState.MatureAmounts, &delegation.MatureData{
+			Address: v.Stake.Addr, Amount: *balance.NewAmount(pm.Amount), Height: pm.Height,
+		})
+	}
+
 	state := consensus.AppState{
+		Delegation: delegState,
 		Currencies: currencies,
 		Balances:   balances,
 		Staking:    staking,
